@@ -63,7 +63,7 @@ META = {
             '`doit run`s (serial / process / thread runner; independent, chained or forced-to-overlap tasks) observed '
             'through a reporter class. '
             'non-trivial = produces output or a non-ok outcome or >1 action; distinct = canonical JSON of the case',
-    'assumptions': ['CmdAction buffering=0 (line mode) and decode_error=replace (the defaults)',
+    'assumptions': ['CmdAction decode_error=replace and encoding=utf-8 (the defaults); every buffering value',
                     'io.capture False/None is documented as "not captured": the capture clause is read for capture on',
                     'one stream machine per channel: stdout and stderr cells are independent'],
     'trusted': ['subprocess, pipes, reader threads, bytes.decode: exercised through the real CmdAction, not modelled',
@@ -92,28 +92,7 @@ def sig_overlap(w):
     return bool(keys) and keys <= {'cell-not-restored', 'misattributed', 'leak-to-original'}
 
 
-def sig_buffering(w):
-    """F-C17c: cmd-action with buffering=N>0 and capture on whose output has a UTF-8 sequence across a multiple of
-    N bytes; what was captured is exactly the chunk-wise decoding of the bytes written"""
-    c = w.get('case') or {}
-    n = c.get('buffering') or 0
-    if c.get('kind') != 'cmd' or n <= 0 or not c.get('capture', True) or c.get('expand', 'ok') != 'ok':
-        return False
-    keys = set(w.get('failed_keys') or [])
-    if not keys or not keys <= {'captured-out', 'captured-err', 'live-out', 'live-err', 'result', 'values'}:
-        return False
-    out, err = actlib.stream_bytes(c)
-    split = [actlib.chunkwise_decode(b, n) != b.decode('utf-8', 'replace') for b in (out, err)]
-    if not any(split):
-        return False
-    if ('captured-out' in keys or 'live-out' in keys) and not split[0]:
-        return False
-    if ('captured-err' in keys or 'live-err' in keys) and not split[1]:
-        return False
-    return w.get('observed_is_chunkwise_decode') is True
-
-
-SIGNATURES = {'stdout-overlap-threads': sig_overlap, 'cmd-buffering-splits-multibyte': sig_buffering}
+SIGNATURES = {'stdout-overlap-threads': sig_overlap}
 
 
 
@@ -510,11 +489,6 @@ def report(st, case, obs, model, probs, drv):
              'observed': json.loads(clip_json(obs2)), 'model': json.loads(clip_json(model2))}
         if small['kind'] == 'overlap':
             w['overlapping_pairs'] = actlib.overlapping_pairs(small)
-        if small['kind'] == 'cmd' and small.get('buffering') and obs2 and 'out' in obs2:
-            ob, eb = actlib.stream_bytes(small)
-            nb = small['buffering']
-            w['observed_is_chunkwise_decode'] = (
-                obs2['out'] == actlib.chunkwise_decode(ob, nb) and obs2['err'] == actlib.chunkwise_decode(eb, nb))
         st.violation(w, fk[0] if fk else key, '; '.join('%s: %s' % (p[0], p[2]) for p in probs2[:4]))
     else:
         w = {'case': case, 'what': describe(case), 'problems': [list(p) for p in probs][:12],
@@ -956,7 +930,7 @@ def exhaustive_cmd(full):
         for v in (0, 2):
             out.append({'kind': 'cmd', 'chunks': chunks, 'exit': ['status', 0], 'v': v, 'capture': cap, 'save_out': 2})
     for nbuf in (1, 2, 3, 4096):
-        # buffering > 0: ASCII and aligned multi-byte output is intact; a misaligned sequence is F-C17c (open)
+        # buffering > 0: output is intact whatever the read size (F-C17c, fixed: incremental decoding)
         out.append({'kind': 'cmd', 'chunks': [['o', {'text': 'plain ascii\nno newline'}], ['e', {'text': 'e'}]],
                     'exit': ['status', 0], 'v': 2, 'capture': True, 'save_out': 1, 'buffering': nbuf})
         out.append({'kind': 'cmd', 'chunks': [['o', {'rep': 'c3a9', 'n': 6}]], 'exit': ['status', 0], 'v': 0,
@@ -1204,13 +1178,6 @@ def replay(ctx, data):
     if not probs:
         print('  no problem: implementation == model == statement on this case')
     pv = [p for p in probs if p[1] == 'P']
-    if pv and case['kind'] == 'cmd' and case.get('buffering') and obs and 'out' in obs:
-        ob, eb = actlib.stream_bytes(case)
-        if sig_buffering({'case': case, 'failed_keys': sorted(set(p[0] for p in pv)),
-                          'observed_is_chunkwise_decode':
-                              obs['out'] == actlib.chunkwise_decode(ob, case['buffering'])
-                              and obs['err'] == actlib.chunkwise_decode(eb, case['buffering'])}):
-            print('  (matches the open known finding cmd-buffering-splits-multibyte, F-C17c)')
     if pv and case['kind'] in ('overlap', 'runner') and sig_overlap({'case': case, 'impl_equals_model': not [p for p in probs if p[1] == 'K'],
                            'failed_keys': sorted(set(p[0] for p in pv))}):
         print('  (matches the open known finding stdout-overlap-threads, F-C17a)')
